@@ -22,6 +22,7 @@ def run(prog: Program, res: Result, tier: str) -> None:
     hashrules.check_stereo_latency(prog, res)
     hashrules.check_hash_pure(prog, res)
     hashrules.check_refine_progress(prog, res)
+    hashrules.check_final_hash(prog, res)
     # the reaction hash is built from reactant() / product() / _ts()
     from . import C08
     C08.check_bonds(prog, res)
